@@ -511,13 +511,13 @@ def gen_cases(chk, rng):
             n = rng.choice([3, 3, 4])
             yield "rnd%d" % n, "".join(rng.choice(ALPHABET) for _ in range(n)), n <= 3
     else:
-        for _ in range(60000):
+        for _ in range(120000):
             n = rng.choice([4, 5, 6, 8])
             yield "rnd%d" % n, "".join(rng.choice(ALPHABET) for _ in range(n)), False
     small, big, texts = corpus_lines()
     bigs = rng.sample(big, min(len(big), 400 if tier == "quick" else 4000))
     lines = small + bigs
-    n_single, n_double = (2, 2) if tier == "quick" else (8, 8)
+    n_single, n_double = (2, 2) if tier == "quick" else (10, 10)
     for ln in lines:
         yield "line", ln, True
         toks = tokenize(ln)
@@ -664,6 +664,34 @@ def check_all(chk, rng, impl, cases_iter):
     return prop_bad, corr_bad, seen
 
 
+def check_lexer(chk, impl):
+    """kg_read(t, 0, read_neg, ignore_newline) alone, all four flag combinations, every string of <= 2 tokens"""
+    from klongpy.parser import kg_read
+    texts = ["".join(tup) for n in (1, 2) for tup in itertools.product(ALPHABET, repeat=n)]
+    texts = list(dict.fromkeys(texts))
+    reqs, meta = [], []
+    for t in texts:
+        for rn in (0, 1):
+            for ign in (0, 1):
+                reqs.append("(lex %d %d 0 (%s))" % (rn, ign, " ".join(str(ord(c)) for c in t)))
+                meta.append((t, rn, ign))
+    outs = chk.run_model(reqs)
+    bad = []
+    for (t, rn, ign), m in zip(meta, outs):
+        chk.count("evaluations")
+        chk.count("cases_lexer")
+        r, n = impl.budgeted(lambda: kg_read(t, 0, read_neg=bool(rn), ignore_newline=bool(ign), module=None), BUDGET(len(t)))
+        if r[0] == "hang":
+            bad.append({"kind": "hang", "text": t, "where": "kg_read", "read_neg": rn, "ignore_newline": ign})
+            continue
+        c = ("ok", [int(r[1][0]), impl.dump(r[1][1], True)]) if r[0] == "ok" else r
+        mm = ("ok", [m[1], impl.mcanon(m[2], True)]) if m[0] == "ok" else (("err", m[1]) if m[0] == "err" else ("oof",))
+        if c != mm:
+            bad.append({"kind": "lexer-model-differs", "text": t, "read_neg": rn, "ignore_newline": ign,
+                        "impl": repr(c)[:300], "model": repr(mm)[:300]})
+    return bad
+
+
 def search_failing(chk, rng, impl, seeds, seen):
     """wider sweep for a failing input of the PROPERTY (hang / re-parse / re-evaluation), used when the model
     disagrees with the implementation or a proof obligation broke.  Neighbourhood of the disagreeing texts
@@ -725,6 +753,8 @@ def run(tier, replay=None):
         known = chk.match_known("C12-comment-empty-marker")
         cases = itertools.chain((("witness", w, False) for w in WITNESS_TEXTS), gen_cases(chk, rng))
         prop_bad, corr_bad, seen = check_all(chk, rng, impl, cases)
+        for b in check_lexer(chk, impl):
+            (prop_bad if b["kind"] == "hang" else corr_bad).append(b)
         reported = []
         for bp in prop_bad:
             if bp["kind"] == "hang" and known and '.comment("")' in bp["text"].replace(" ", ""):
